@@ -37,11 +37,13 @@ GBU_ENS = [
     ("latch", "implies(old(self._stop_price_hit), self._stop_price_hit)"),
 ]
 
-contract(O + "Order.get_balance_updates", props=P, abstract=True, types=GBU_T, returns="Dict[Str,Real]",
-         requires=GBU_REQ, ensures=GBU_ENS, modifies=["self._stop_price_hit"])
+def _guard(cls, clauses):
+    g = " or ".join("typeis(self, '%s')" % c for c in cls)
+    return [(("%s_" % cls[0]) + lbl, "implies(%s, %s)" % (g, txt)) for lbl, txt in clauses]
+
 
 # fill-or-kill orders never fill partially (C05/C08)
-FOK = [("all_or_nothing", "implies(ob(self) in result, abs(at(result, ob(self))) == pending(self))"),
+FOK = [("all_or_nothing", "implies(ob(self) in result, at(result, ob(self)) == (pending(self) if is_buy(self) else -pending(self)))"),
        ("no_liquidity", "implies(pending(self) > liquidity_strategy.avail, not (ob(self) in result))")]
 
 # price clauses, un-rounded (C04).  A = base amount, QA = quote amount of the fill
@@ -102,12 +104,12 @@ contract(O + "StopLimitOrder.get_balance_updates", props=P, types=GBU_T, returns
 # =======================================================================================================================
 # Order state machine (C05): constructor, cancel, add_fill, not_filled, get_order_info
 # =======================================================================================================================
-INIT_T = {"id": "Str", "amount": "Real", "limit_price": "Real", "stop_price": "Real"}
+INIT_T = {"id": "Id", "amount": "Real", "limit_price": "Real", "stop_price": "Real"}
 specfun("order_fresh", ["o", "id", "operation", "pair", "amount", "state", "auto_borrow", "auto_repay"],
         "o._id == id and o._operation == operation and o._pair == pair and o._amount == amount and o._state == state "
         "and o._auto_borrow == auto_borrow and o._auto_repay == auto_repay "
         "and forall(lambda s=Str: not (s in o._balance_updates)) and forall(lambda s=Str: not (s in o._fees)) "
-        "and seq_len(o._fills) == 0 and forall(lambda s=Str: not (s in o._loan_ids)) "
+        "and seq_len(o._fills) == 0 and forall(lambda s=Id: not (s in o._loan_ids)) "
         "and fresh(o._balance_updates) and fresh(o._fees) and fresh(o._fills) and fresh(o._loan_ids)")
 
 contract(O + "Order.__init__", props=["C05"], types=INIT_T,
@@ -154,8 +156,8 @@ contract(O + "Order.add_fill", props=["C05", "C01", "C09"],
          # ghost ledger: every number recorded on an order enters the ledger (C01)
          ghost_exit=[("GHOST.ledger", "mmap_add(GHOST.ledger, balance_updates, fees)")])
 
-contract(O + "Order.add_loan", props=["C11"], types={"loan_id": "Str"},
-         ensures=[("added", "forall(lambda s=Str: (s in self._loan_ids) == (old(s in self._loan_ids) or s == loan_id))")],
+contract(O + "Order.add_loan", props=["C11"], types={"loan_id": "Id"},
+         ensures=[("added", "forall(lambda s=Id: (s in self._loan_ids) == (old(s in self._loan_ids) or s == loan_id))")],
          modifies=["content(self._loan_ids)"])
 
 contract(O + "Order.not_filled", props=["C05"], ensures=[], modifies=[])
@@ -180,3 +182,21 @@ contract(O + "StopOrder.get_order_info", props=["C05", "C09"], returns="OrderInf
          [("prices", "result.stop_price == self._stop_price and is_none(result.limit_price)")], modifies=[])
 contract(O + "StopLimitOrder.get_order_info", props=["C05", "C09"], returns="OrderInfo", ensures=INFO_ENS +
          [("prices", "result.stop_price == self._stop_price and result.limit_price == self._limit_price")], modifies=[])
+
+
+# The base contract used at dynamic call sites carries, per known order type, the price clauses of that type (each
+# override is checked to refine it); an unknown user subclass only promises the generic part.
+BASE_EXTRA = (_guard(["MarketOrder"], FOK + [
+                  ("in_range", "implies(ob(self) in result, bar.low * A(self, result) <= QA(self, result) and QA(self, result) <= bar.high * A(self, result))"),
+                  ("not_better_than_open", "implies(ob(self) in result, (QA(self, result) >= bar.open * A(self, result)) if is_buy(self) else (QA(self, result) <= bar.open * A(self, result)))"),
+                  ("complete", "implies(pending(self) <= liquidity_strategy.avail, ob(self) in result)")])
+              + _guard(["StopOrder"], FOK + [
+                  ("triggered", "implies(ob(self) in result, (bar.high >= self._stop_price) if is_buy(self) else (bar.low <= self._stop_price))"),
+                  ("in_range", "implies(ob(self) in result, bar.low * A(self, result) <= QA(self, result) and QA(self, result) <= bar.high * A(self, result))"),
+                  ("not_better_than_stop", "implies(ob(self) in result, (QA(self, result) >= self._stop_price * A(self, result)) if is_buy(self) else (QA(self, result) <= self._stop_price * A(self, result)))")])
+              + _guard(["LimitOrder", "StopLimitOrder"], SL_PRICE)
+              + _guard(["StopLimitOrder"], [("fill_needs_latch", "implies(ob(self) in result, self._stop_price_hit)"),
+                                            ("latch", "self._stop_price_hit == (old(self._stop_price_hit) or ((bar.high >= self._stop_price) if is_buy(self) else (bar.low <= self._stop_price)))")])
+              + [("others_latch", "implies(not typeis(self, 'StopLimitOrder'), self._stop_price_hit == old(self._stop_price_hit))")])
+contract(O + "Order.get_balance_updates", props=P, abstract=True, types=GBU_T, returns="Dict[Str,Real]",
+         requires=GBU_REQ, ensures=GBU_ENS + BASE_EXTRA, modifies=["self._stop_price_hit"])
